@@ -2009,3 +2009,113 @@ def connection_sequence(ctx, mir, stats):
     oks = len(wr) == 1 and len(sdn) == 1 and wr[0][0] < sdn[0][0] and any("DisconnectProviderUltimatum" in x for x in hdr)
     obs.append({"id": "mcs::shutdown:ultimatum-then-close", "ok": oks, "functions": [sd.name], "detail": "shutdown sends one disconnect-provider ultimatum and then closes the transport" if oks else "shutdown does %s / %s" % ([e[2] for i, e in wr + sdn], hdr), "where": sd.name})
     return obs
+
+
+# --------------------------------------------------------------------------
+# C15 (reduced): layout arithmetic of the AUTHENTICATE token and wiring of its inputs
+# --------------------------------------------------------------------------
+AUTH_NATIVE = _native("verif_replay_ntlm_authenticate_layout", "src/nla/ntlm.rs", """
+        // strict reader of the buffer descriptors: every (len, maxlen, offset) must address its field inside the final token
+        let fields: [&[u8]; 6] = [b"L", b"NT", b"DOM", b"USER", b"WKSTA", b"KEY123"];
+        for flags in [0u32, 0x0200_0000, 0x0080_0000, 0x0280_0000, 0xffff_ffff].iter() {
+            let (msg, payload) = authenticate_message(fields[0], fields[1], fields[2], fields[3], fields[4], fields[5], *flags);
+            let token = [to_vec(&msg), vec![0; 16], payload].concat();
+            assert_eq!(&token[0..8], b"NTLMSSP\\0");
+            for k in 0..6 {
+                let d = 12 + 8 * k;
+                let len = (token[d] as usize) | ((token[d + 1] as usize) << 8);
+                let max = (token[d + 2] as usize) | ((token[d + 3] as usize) << 8);
+                let off = (token[d + 4] as usize) | ((token[d + 5] as usize) << 8) | ((token[d + 6] as usize) << 16) | ((token[d + 7] as usize) << 24);
+                assert_eq!(len, fields[k].len(), "flags {:#x} field {} length", flags, k);
+                assert_eq!(max, len, "flags {:#x} field {} max length", flags, k);
+                assert!(off + len <= token.len(), "flags {:#x} field {} lies outside the token", flags, k);
+                assert_eq!(&token[off..off + len], fields[k], "flags {:#x} field {} offset {} does not address its bytes", flags, k, off);
+            }
+        }""")
+
+
+def authenticate_layout(ctx, mir, stats):
+    obs = []
+    f = find_fn(mir, r"^authenticate_message$")
+    se = SymExec(f, stats, max_paths=5000).run()
+    flags = [v for nm, (v, ty) in se.inputs.items() if nm.startswith("arg_7#")]
+    if not flags:
+        raise Inconclusive("ENCODING-FAILED: flags argument of authenticate_message not found")
+    VERSION = 0x02000000
+    n = 0
+    for p in se.finished:
+        u16s = [e for e in p.events if e[0] == "assign" and e[3].startswith("Value::<u16>::LE(")]
+        u32s = [e for e in p.events if e[0] == "assign" and e[3].startswith("Value::<u32>::LE(")]
+        if len(u16s) != 12 or len(u32s) != 8:
+            raise Inconclusive("ENCODING-FAILED: AUTHENTICATE layout has %d u16 and %d u32 fields (expected 12 and 8)" % (len(u16s), len(u32s)))
+        v16 = [se.operand(p, e[3][len("Value::<u16>::LE("):-1]) for e in u16s]
+        v32 = [se.operand(p, e[3][len("Value::<u32>::LE("):-1]) for e in u32s]
+        lens = [p.env.get("len(_%d)" % k) for k in range(1, 7)]
+        if any(v is None for v in v16 + v32 + lens):
+            raise Inconclusive("ENCODING-FAILED: a length/offset expression of the AUTHENTICATE message is not encodable")
+        n += 1
+        small = [z3.ULT(l, z3.BitVecVal(0x10000, 64)) for l in lens]          # fields that fit their 16-bit length
+        base = z3.If((flags[0] & VERSION) != 0, z3.BitVecVal(88, 32), z3.BitVecVal(80, 32))
+        wrong = []
+        acc = base
+        for k in range(6):
+            l16 = z3.Extract(15, 0, lens[k])
+            wrong.append(v16[2 * k] != l16)
+            wrong.append(v16[2 * k + 1] != l16)
+            wrong.append(v32[1 + k] != acc)
+            acc = acc + z3.Extract(31, 0, lens[k])
+        wrong.append(v32[0] != z3.BitVecVal(3, 32))
+        wrong.append(v32[7] != flags[0])
+        verdict, mdl, smt = se.check(p, small + [z3.Or(*wrong)], "authenticate layout")
+        cvc5_check(smt, verdict, stats)
+        obs.append({"id": "authenticate_message:descriptors[%s]" % p.trace[3], "ok": verdict == "unsat", "functions": [f.name],
+                    "detail": "for all field lengths < 65536 and all flags: Len = MaxLen = field length, each BufferOffset = (80, or 88 with the Version field) + lengths of the preceding fields, MessageType 3, flags echoed" if verdict == "unsat"
+                    else "a buffer descriptor does not address its field: %s" % mdl, "cex": mdl, "where": f.name, "native": None if verdict == "unsat" else AUTH_NATIVE})
+        # payload order = descriptor order
+        arr = [e for e in p.events if e[0] == "assign" and re.match(r"\[move _\d+(, move _\d+){5}\]$", e[3])]
+        if arr:
+            k0 = p.events.index(arr[0])
+            srcs = [resolve_source(p.events, k0, a.strip(), depth=5) for a in arr[0][3][1:-1].split(",")]
+            order = [re.search(r"to_vec\((?:copy |move )?\??(_\d+)\)", x).group(1) if re.search(r"to_vec\((?:copy |move )?\??(_\d+)\)", x) else x[-40:] for x in srcs]
+            ok = order == ["_1", "_2", "_3", "_4", "_5", "_6"]
+            obs.append({"id": "authenticate_message:payload-order", "ok": ok, "functions": [f.name], "detail": "payload = lm | nt | domain | user | workstation | session key, the order the offsets assume" if ok else "payload order is %s" % order,
+                        "where": f.name, "native": None if ok else AUTH_NATIVE})
+    if n == 0:
+        raise Inconclusive("ENCODING-FAILED: no complete path through authenticate_message")
+    # the Version field is present exactly when the offsets assume it
+    c = find_fn(mir, r"^authenticate_message::\{closure#0\}$")
+    sc = SymExec(c, stats, call_model=closure_call_model).run()
+    for p in sc.finished:
+        ret = _last_assign_to_ret(p) or ""
+        fv = p.env.get("field.inner")
+        if fv is None:
+            raise Inconclusive("ENCODING-FAILED: NegotiateFlags closure does not read the field")
+        skip = ret.startswith("MessageOption::SkipField")
+        verdict, mdl, smt = sc.check(p, [((fv & VERSION) == 0) != skip], "version skip")
+        obs.append({"id": "authenticate_message:version-field-iff-flag[%s]" % ("skip" if skip else "keep"), "ok": verdict == "unsat", "functions": [c.name],
+                    "detail": "the Version field is omitted exactly when NTLMSSP_NEGOTIATE_VERSION is clear - the same condition that selects the 80/88 offset base" if verdict == "unsat" else "Version presence disagrees with the offset base for flags %s" % mdl,
+                    "where": c.name, "native": None if verdict == "unsat" else AUTH_NATIVE})
+    # wiring in read_challenge_message
+    g = find_fn(mir, r"ntlm::<impl at src/nla/ntlm\.rs[^>]*>::read_challenge_message$")
+    sg = SymExec(g, stats, loop_bound=0, max_paths=20000).run()
+    best = None
+    for p in sg.finished:
+        if calls_on(p.events, r"^authenticate_message$") and calls_on(p.events, r"^mic$"):
+            best = p
+    if best is None:
+        raise Inconclusive("ENCODING-FAILED: no complete path through read_challenge_message")
+    ev = best.events
+    am = calls_on(ev, r"^authenticate_message$")[0]
+    srcs = [resolve_source(ev, am[0], a, depth=10) for a in am[1][4]]
+    cr = calls_on(ev, r"^compute_response_v2$")
+    rk = calls_on(ev, r"^rc4k$")
+    okw = bool(cr) and bool(rk) and "compute_response_v2" in srcs[0] + srcs[1] and "get_domain_name" in srcs[2] and "get_user_name" in srcs[3] and "rc4k" in srcs[5]
+    obs.append({"id": "read_challenge_message:authenticate-inputs", "ok": okw, "functions": [g.name],
+                "detail": "AUTHENTICATE is built from the computed LM/NT responses, the domain and user names, an empty workstation and the RC4-wrapped exported session key" if okw else "authenticate_message inputs: %s" % [x[:50] for x in srcs], "where": g.name})
+    mc = calls_on(ev, r"^mic$")[0]
+    ms = [resolve_source(ev, mc[0], a, depth=10) for a in mc[1][4]]
+    okm = "(*_1)" in ms[0] or "exported_session_key" in ms[0] or "Option::<&Vec<u8>>::unwrap" in ms[0]
+    okm = okm and ("_2" in ms[2] or "request" in ms[2]) and "to_vec" in ms[3]
+    obs.append({"id": "read_challenge_message:mic-inputs", "ok": bool(okm), "functions": [g.name],
+                "detail": "MIC = HMAC(exported session key, negotiate | the server's challenge bytes | authenticate with a zeroed MIC)" if okm else "mic inputs: %s" % [x[:60] for x in ms], "where": g.name})
+    return obs
